@@ -44,14 +44,14 @@ def lib_phase(ctx, bins, model, n, only=None):
                 if any(r["status"] in "FW" for r in c["rs"]):
                     nontrivial.add(c["line"])
             elif c["cmd"] == "apply":
-                b = c["bl"]
+                b = view(c["bl"])
                 want = "".join(("G" if (r["status"] == "F" and norm_key(r["path"]) in b) else r["status"]) for r in c["rs"]) or "_"
                 if o != want:
                     fails.append({"prop": "C09", "what": "apply: statuses %s, spec %s" % (o, want), "case": c["line"]})
                 if "G" in want and "F" in want:
                     nontrivial.add(c["line"])
             elif c["cmd"] == "ratchet":
-                b = c["bl"]
+                b = view(c["bl"])
                 cur = {norm_key(r["path"]) for r in c["rs"] if r["status"] in "FG"}
                 want = w_keys([k for k in b if k not in cur])
                 if o != want:
@@ -59,17 +59,17 @@ def lib_phase(ctx, bins, model, n, only=None):
                 if want != "_" and cur & set(b):
                     nontrivial.add(c["line"])
             elif c["cmd"] == "tighten":
-                want = w_bl({k: e for k, e in c["bl"].items() if k not in set(c["ks"])})
+                want = w_bl({k: e for k, e in view(c["bl"]).items() if k not in set(c["ks"])})
                 if o != want:
                     fails.append({"prop": "C10", "what": "tighten: %s, spec %s" % (o, want), "case": c["line"]})
-                if set(c["ks"]) & set(c["bl"]):
+                if set(c["ks"]) & set(view(c["bl"])):
                     nontrivial.add(c["line"])
             elif c["cmd"] == "update":
                 if o.startswith("ERR") or o in ("SKIPPED", "PANIC", "<NOANSWER>"):
                     fails.append({"prop": "C09", "what": "update: " + o, "case": c["line"]})
                 else:
                     got = p_bl(o)
-                    ex = c["bl"] or {}
+                    ex = view(c["bl"]) or {}
                     fk = {norm_key(r["path"]) for r in c["rs"] if r["status"] in "FG"}
                     stray = [k for k in got if k not in fk and k not in ex]
                     if stray:
@@ -197,7 +197,7 @@ def history_phase(ctx, bins, model, hists, depth_flags=None, depth_every=5):
                 and w_keys(rec["stale_reported"]) != f[3]:
             mism.append({"history": hists[hi], "step": slim(rec), "model": mo, "what": "stale paths reported %s" % rec["stale_reported"]})
         if is_ff(rec["flags"]):
-            ob = w_bl(rec["disk0"] if rec["flags"].get("b") else None)
+            ob = w_bl(view(rec["disk0"]) if rec["flags"].get("b") else None)   # the loaded (re-keyed) baseline
             fflines.append("ffsub\t%s\t%s\t%s" % (w_results(rec["rsel"]), w_results(rec["rp"]), ob))
             ffidx.append(idx)
     ffbad = []
@@ -324,11 +324,11 @@ def validate_traces(model, traces):
     """Model side of the trace validation. Fills t['ffsub'], t['seq_ok'], t['model_exit']."""
     l1, l2, l3 = [], [], []
     for t in traces:
-        ob = w_bl(t["disk"])
+        ob = w_bl(view(t["disk"]))   # ff_sub / ff_seq take the loaded (re-keyed) baseline, check_step the file
         l1.append("ffsub\t%s\t%s\t%s" % (w_results(t["R"]), w_results(t["Rp"]), ob))
         l2.append("ffseq\t%s\t%s" % (w_results(t["R"]), ob))
         fl = {"b": t["disk"] is not None, "wae": t["wae"], "wo": t["wo"], "ff": True}
-        l3.append("step\t%s\t%s\t_\t%s" % (w_flags(fl), w_results(t["Rp"]), ob))
+        l3.append("step\t%s\t%s\t_\t%s" % (w_flags(fl), w_results(t["Rp"]), w_bl(t["disk"])))
     o1, e1 = run_sharded(model, l1)
     o2, e2 = run_sharded(model, l2)
     o3, e3 = run_sharded(model, l3)
